@@ -5,8 +5,10 @@ from __future__ import annotations
 import logging
 from typing import TYPE_CHECKING, Any
 
+from xknx.cemi.const import MAX_NPDU_LENGTH
 from xknx.core.value_reader import ValueReader
 from xknx.dpt import DPTArray, DPTBase, DPTBinary
+from xknx.exceptions import ConversionError
 from xknx.telegram import Telegram
 from xknx.telegram.address import DeviceAddressableType, parse_device_group_address
 from xknx.telegram.apci import GroupValueRead, GroupValueResponse, GroupValueWrite
@@ -106,4 +108,20 @@ def _parse_payload(
         return transcoder.to_knx(value)
     if isinstance(value, int):
         return DPTBinary(value)
-    return DPTArray(value)
+    try:
+        payload = DPTArray(value)
+    except TypeError as err:
+        raise ConversionError("Could not parse raw payload", value=value) from err
+    if not 0 < len(payload.value) < MAX_NPDU_LENGTH:
+        # an empty array has no wire form; more than 253 octets do not fit a frame
+        raise ConversionError(
+            "Raw payload length not supported", length=len(payload.value)
+        )
+    if any(
+        not isinstance(octet, int) or not 0 <= octet <= 0xFF
+        for octet in payload.value
+    ):
+        raise ConversionError(
+            "Raw payload octets must be integers 0..255", value=value
+        )
+    return payload
